@@ -245,3 +245,23 @@ def collect_effects(model, root, start_blocks=None, prefix=()):
                 if CONFIG_CLASS_CALLS.search(e.what) or MSG_HELPER_CALLS.search(e.what):
                     out.append((chain, e, e.what))
     return out
+
+
+def expand_passthrough(model, view, origins, depth=0):
+    """Look through workspace helpers that return (a field of) one of their arguments unchanged:
+    origin call(f).proj where f returns param(i).proj is replaced by the origins of argument i."""
+    out = set()
+    for o in origins:
+        if o.kind == "call" and depth < 3:
+            cv, cb, t = site_term(model, o)
+            c = term_callee(t)
+            if c in model.fnsrc and cv.path == view.path:
+                ros = return_origins(model, c, o.proj)
+                if ros and all(r.kind == "param" and r.b == c for r in ros):
+                    for r in ros:
+                        if r.a - 1 < len(t["args"]):
+                            sub = view.origins_of_operand(t["args"][r.a - 1], proj=r.proj, at=view.at_term(cb))
+                            out |= expand_passthrough(model, view, sub, depth + 1)
+                    continue
+        out.add(o)
+    return out
